@@ -699,7 +699,7 @@ def _with_clang_clone(jobs_fn, pick):
 
 _plain = lambda j: not j.get('san') and not j.get('cc') and 'script' not in j and not j.get('defs', []) == ['-funsigned-char']
 for _pid, _pick in (('C04', lambda j: _plain(j) and 'vec' in j['name']), ('C05', lambda j: _plain(j) and 'que' in j['name']), ('C06', lambda j: _plain(j) and 'rich' in j['name']),
-                    ('C09', _plain), ('C12', _plain), ('C14', _plain), ('C16', _plain), ('C17', _plain), ('C18', lambda j: _plain(j) and j['name'].startswith('utf')), ('C19', lambda j: _plain(j) and 'light' in [str(a) for a in j.get('args', [])] or j['name'] == 'bits-outofline')):
+                    ('C09', _plain), ('C12', _plain), ('C14', _plain), ('C16', _plain), ('C17', _plain), ('C18', lambda j: _plain(j) and j['name'].startswith('utf')), ('C19', lambda j: j['name'] == 'bits-s0')):
     CHECKS[_pid]['jobs'] = _with_clang_clone(CHECKS[_pid]['jobs'], _pick)
 
 for _pid in sorted(CHECKS):
